@@ -26,7 +26,12 @@ ConfFor(P, drv) ==
 \*      k is renamed in the clone, the clone of the sibling still calls the old name
 \*  (b) dup with subgraph when a module imports the callee at module level: only routine-level imports of a clone are
 \*      re-pointed (a TODO in DuplicateKernel._rename_calls), the clone calls a name it does not import
+\*  (c) dep on a module that is not renamed (it holds a driver) and has a routine outside the graph: the module-level
+\*      import is re-pointed to the suffixed names, the unprocessed routine keeps calling the old one
 Pre(o) ==
+  /\ o.op = "dep" => \A m \in {n.scope : n \in ProcNodes(G)} \ {""} :
+                         (\E n \in ProcNodes(G) : n.scope = m /\ RoleOf(S, n) # "kernel")
+                            => \A pr \in Procs(S.P) : pr.mod = m => ItemOfProc(pr) \in G.nodes
   /\ (o.op = "dup" /\ o.sub) => \A m \in Mods(S.P) : m.imports = <<>>
   /\ o.op = "dup" => \A q \in {n \in ProcNodes(G) : n.local = o.k /\ n.scope # ""} :
                      \A pr \in Procs(S.P) : (pr.mod = q.scope /\ pr.name # o.k) => o.k \notin Range(pr.calls)
@@ -49,15 +54,15 @@ Step ==
        /\ o.op = "dup" => \A i \in DOMAIN hist : ~(hist[i].op = "dup" /\ hist[i].k = o.k)   \* a kernel is duplicated once
        /\ Guarded => Pre(o)
        /\ S' = ApplyG(S, G, o)
-       /\ G' = IF AllRefsLegal(S'.P) /\ UniqueUnits(S'.P) /\ SeedsResolve(S'.P, S'.C) THEN Graph(S') ELSE EmptyGraph
+       /\ G' = IF Consistent(S'.P, S'.C) THEN Graph(S') ELSE EmptyGraph
        /\ hist' = Append(hist, o)
   /\ UNCHANGED pc
 MCNext == Pick \/ Step
 MCSpec == MCInit /\ [][MCNext]_mvars
 
 Running == pc = "run"
-\* (all units, not only those of processed files: the closure is only defined on a project without dangling references)
-InvAllRefsLegal == Running => AllRefsLegal(S.P)
+\* unique unit names, seeds resolve, no unresolved reference on any path from the seeds (then the graph is defined)
+InvConsistent == Running => G # EmptyGraph
 InvNoDanglingRef == Running => NoDanglingRef(S.P, G.nodes)
 InvUniqueUnits == Running => UniqueUnits(S.P)
 InvSeedsResolve == Running => SeedsResolve(S.P, S.C)
